@@ -96,6 +96,24 @@ def replay_case(arg):
             fail('PointwiseIsTotal', 'pointwise', dict(got=pw.tolist(), expected=exp_pw.tolist()))
         elif not interp.close(np.sum(pw), ll):
             fail('PointwiseIsTotal', 'sum', dict(got=float(np.sum(pw)), expected=float(ll)))
+        # representation: whole-number observations handed over with an INTEGER dtype give what the same numbers give as floats
+        if rep == 0 and mag == 'unit':
+            oi = np.maximum(np.round(obs), 1.0)
+            try:
+                with warnings.catch_warnings():
+                    warnings.simplefilter('ignore')
+                    a_ = (em.compute_log_likelihood(np.array(par), mo.copy(), oi.copy()),
+                          np.asarray(em.compute_pointwise_ll(np.array(par), mo.copy(), oi.copy()), dtype=float),
+                          em.compute_sensitivities(np.array(par), mo.copy(), S.copy(), oi.copy()))
+                    b_ = (em.compute_log_likelihood(np.array(par), mo.copy(), oi.astype(int)),
+                          np.asarray(em.compute_pointwise_ll(np.array(par), mo.copy(), oi.astype(int)), dtype=float),
+                          em.compute_sensitivities(np.array(par), mo.copy(), S.copy(), oi.astype(int)))
+                same = interp.close(a_[0], b_[0]) and interp.close(a_[1], b_[1]) and interp.close(a_[2][0], b_[2][0]) and \
+                    interp.close(np.asarray(a_[2][1], dtype=float), np.asarray(b_[2][1], dtype=float))
+                if not same:
+                    fail('Density', 'integer_observations_score_differently', dict(float=float(a_[0]), int=float(b_[0]), par=par))
+            except Exception as e:
+                fail('Evaluable', type(e).__name__, dict(op='integer observations', error=repr(e)))
         if g.shape != (p + q,):
             fail('GradLength', 'length', dict(got=list(g.shape), expected=p + q))
         elif not interp.close(g, exp_g, rtol=1e-8, atol=1e-8):
